@@ -363,7 +363,25 @@ def special_values_case(api):
             api.check(P + "/computed/%r" % v, struct.pack("d", r2.value) == struct.pack("d", q2.value))
 
 
-CASES = [Case("roundtrip/special-values", special_values_case, functions=["UnitValue.__str__", "parse_unitvalue"],
+def ascii_micro_case(api):
+    """every symbol with the micro prefix may be spelled with an ASCII 'u': same meaning (finite table)"""
+    U = api.mod("units")
+    P = "C18/ascii-micro"
+    for sym in ("m", "s", "mol", "L", "M", "molecule"):
+        for e in ("", "2", "-1"):
+            a, b = "u%s%s" % (sym, e), "µ%s%s" % (sym, e)
+            ra = api.call(lambda: U.parse_units(a))
+            rb = api.call(lambda: U.parse_units(b))
+            api.check(P + "/%s-accepted-like-%s" % (a, b), ra.ok == rb.ok)
+            if ra.ok and rb.ok:
+                api.check(P + "/%s=%s" % (a, b), ra.value == rb.value and str(ra.value) == str(rb.value), "%s / %s" % (ra.value, rb.value))
+                va, vb = U.UnitValue(2.5, a).convert(U.UnitsSystem()), U.UnitValue(2.5, b).convert(U.UnitsSystem())
+                api.check(P + "/%s=%s (value in default units)" % (a, b), va.value == vb.value)
+
+
+CASES = [Case("ascii-micro", ascii_micro_case, functions=["parse_units"], sym=False,
+              bounded="6 symbols x 3 exponents, exhaustive"),
+         Case("roundtrip/special-values", special_values_case, functions=["UnitValue.__str__", "parse_unitvalue"],
               sym=False, bounded="15 special doubles (signed zeros, denormals, extremes) x 3 units, exhaustive"),
          roundtrip_units_case(), roundtrip_value_case(), quantity_meaning_case(), slash_case(), order_case()]
 for _e in ((False,), (True,)):
